@@ -3,33 +3,7 @@ import json, os
 from ..props import CHECKS, REPLAYERS, report_mismatches
 
 CONC_STREAM = {"name": "concidm", "harness": "concidm", "driver": "concidm", "overlay": True}
-KF_WINDOW = "C15-adduser-delgroup-window"
-
-
-def classify(f):
-    """A non-linearizable outcome is the known AddUser/DelGroup window iff: a thread's AddUser x g got past its
-    group look-up (did not answer UnknownGroup) while ANOTHER thread ran DelGroup g successfully and a call on the
-    same user name x ran outside the AddUser's thread - later in the DelGroup thread's program, or in a third
-    thread (it can then sit, in real time, between DelGroup and the second section of that AddUser)."""
-    if f["kind"] != "nonlin":
-        return None
-    calls = f["calls"]
-    for i, ti in enumerate(calls):
-        for a in ti:
-            if a["op"] != "AU" or a["res"].startswith("E UG"):
-                continue
-            x, g = a["args"][0], a["args"][1]
-            for j, tj in enumerate(calls):
-                if j == i:
-                    continue
-                for k, b in enumerate(tj):
-                    if b["op"] == "DG" and b["args"][0] == g and b["res"] == "NIL":
-                        if any(c["op"] in ("DU", "LU", "AU") and c["args"][0] == x for c in tj[k + 1:]):
-                            return KF_WINDOW
-                        for m, tm in enumerate(calls):
-                            if m not in (i, j) and any(c["op"] in ("DU", "LU", "AU") and c["args"][0] == x for c in tm):
-                                return KF_WINDOW
-    return None
+CORPUS = "C15-concidm-regression.cases"   # former AddUser/DelGroup window witnesses + the C15-m2 witness: must be clean now
 
 
 def load_findings(ctx, name):
@@ -43,45 +17,38 @@ WHAT = {"nonlin": "results + final maps equal to no sequential order of the same
         "panic": "a call panicked under this interleaving"}
 
 
+def _report(ctx, name, fs, where):
+    fs = sorted(fs, key=lambda f: (sum(len(t) for t in f["calls"]), f["steps"], f["sig"]))
+    for f in fs[:3]:
+        ctx.violation(name + "-" + f["kind"], "MemIdm%s: %s [%s | %d executions]%s" % (
+            where, WHAT[f["kind"]], f["program"], f["count"], (" - " + f["detail"]) if f.get("detail") else ""),
+            {"engine": "concidm", "conc_stream": CONC_STREAM, "case": f["case"], "observed": f["observed"], "kind": f["kind"],
+             "sequential_outcomes": f.get("sequential_outcomes"), "deviating_signatures_in_run": len(fs)})
+
+
+def _tie(ctx, mm, where):
+    for (i, c, m, o) in mm[:2]:
+        ctx.violation("concidm-tie", "the instrumented MemIdm and the extracted model MemIdm.crun disagree%s (same program, same schedule: results, "
+                      "lock of every critical section of every call, or final maps differ) on %d executions" % (where, len(mm)),
+                      {"engine": "concidm", "conc_stream": CONC_STREAM, "case": c, "model": m, "observed": o, "mismatching_cases_in_run": len(mm)})
+
+
 def concurrent_part(ctx):
-    from .. import overlay
-    kf = {k["id"]: k for k in ctx.kf}
-    reproduced = set()
-    wit = [(k["id"], k["witness"]["case"]) for k in ctx.kf if isinstance(k.get("witness"), dict) and k["witness"].get("engine") == "concidm"]
-    if wit:
-        mm = overlay.stream(ctx, "concidm-witness", "concidm", "concidm", replay_lines=[c for _, c in wit])
-        if mm is None:
-            return
-        for f in load_findings(ctx, "concidm-witness"):
-            kid = classify(f)
-            if kid in kf:
-                reproduced.add(kid)
+    """No deviation is a known finding any more (AddUser repaired): every non-linearizable outcome, inconsistent
+    map state, deadlock or panic is a VIOLATION with program + schedule as replay."""
+    from .. import overlay, ROOT
+    corpus = [l.strip() for l in open(os.path.join(ROOT, "corpus", CORPUS)) if l.strip()]
+    mm = overlay.stream(ctx, "concidm-corpus", "concidm", "concidm", replay_lines=corpus)
+    if mm is None:
+        return
+    _tie(ctx, mm, " on the regression corpus")
+    _report(ctx, "concidm-corpus", load_findings(ctx, "concidm-corpus"), " (regression corpus corpus/%s)" % CORPUS)
     mm = overlay.stream(ctx, "concidm", "concidm", "concidm")
     if mm is None:
         return
-    for (i, c, m, o) in mm[:2]:
-        ctx.violation("concidm-tie", "the instrumented MemIdm and the extracted model MemIdm.crun disagree (same program, same schedule: results, "
-                      "lock trace per call = section structure, or final maps differ) on %d explored executions" % len(mm),
-                      {"engine": "concidm", "conc_stream": CONC_STREAM, "case": c, "model": m, "observed": o, "mismatching_cases_in_run": len(mm)})
-    un, classes = [], {}
-    for f in load_findings(ctx, "concidm"):
-        kid = classify(f)
-        if kid is None or kid not in kf:
-            un.append(f)
-        else:
-            reproduced.add(kid)
-            classes.setdefault(kid, {"executions": 0, "signatures": 0})
-            classes[kid]["executions"] += f["count"]
-            classes[kid]["signatures"] += 1
-    un.sort(key=lambda f: (sum(len(t) for t in f["calls"]), f["steps"], f["sig"]))
-    for f in un[:3]:
-        ctx.violation("concidm-" + f["kind"], "MemIdm: %s; not the listed AddUser/DelGroup window [%s | %d executions]%s" % (
-            WHAT[f["kind"]], f["program"], f["count"], (" - " + f["detail"]) if f.get("detail") else ""),
-            {"engine": "concidm", "conc_stream": CONC_STREAM, "case": f["case"], "observed": f["observed"], "kind": f["kind"],
-             "sequential_outcomes": f.get("sequential_outcomes"), "unclassified_signatures_in_run": len(un)})
-    for kid in sorted(reproduced):
-        ctx.known_finding(kid, kf[kid]["what"])
-    ctx.coverage["known_finding_classes"] = classes
+    _tie(ctx, mm, "")
+    _report(ctx, "concidm", load_findings(ctx, "concidm"), "")
+    ctx.coverage["regression_corpus_cases"] = len(corpus)
     ctx.coverage["trusted_base"] += [
         "overlay instrumentation (lib/vcheck/overlay.py, fails closed) and the deterministic scheduler harness/sched; granularity: a critical section is atomic (sound under the lock discipline of C08)"]
 
@@ -106,15 +73,12 @@ def replay_C15(ctx, obj):
         print("replay: implementation and model differ\n case:     %s\n model:    %s\n observed: %s" % (c, m, o))
         ctx.violation("replay", obj.get("what", "replayed case still fails"), dict(obj, model=m, observed=o))
         bad = True
-    kf = {k["id"] for k in ctx.kf}
     for f in load_findings(ctx, "concidm-replay"):
-        kid = classify(f)
-        print("replay: %s: %s -> %s" % (f["kind"], f["observed"].split(" | ")[1], kid or "no known-finding class"))
-        if kid is None or kid not in kf:
-            ctx.violation("replay", obj.get("what", "replayed case still fails"), dict(obj, observed=f["observed"]))
-            bad = True
+        print("replay: %s: %s" % (f["kind"], f["observed"].split(" | ")[1]))
+        ctx.violation("replay", obj.get("what", "replayed case still fails"), dict(obj, observed=f["observed"]))
+        bad = True
     if not bad:
-        print("replay: no unlisted deviation on this case now")
+        print("replay: no deviation on this case now (linearizable, maps consistent, model and implementation agree)")
     return ctx.finish(write_evidence=False)
 
 
